@@ -1011,7 +1011,9 @@ func (vf *VerifyFunc) checkFrame(st *State, where, kind string) {
 	}
 	sortStrings(keys)
 	for _, k := range keys {
-		if strings.HasPrefix(k, "L:") || strings.HasPrefix(k, "V:err:") || wild[k] {
+		if strings.HasPrefix(k, "L:") || strings.HasPrefix(k, "V:err:") || wild[k] || k == "G:ctxDone" {
+			// G:ctxDone is maintained by the verifier itself (set at a receive from ctx.Done(), only ever read as
+			// `done ==> Err() != nil`): a caller that keeps a stale value loses information, never gains any
 			continue
 		}
 		n0 := st.initialHeapName(k, 0)
@@ -1039,7 +1041,7 @@ func (vf *VerifyFunc) assumeLoopFrame(st *State, keys []string) {
 		return
 	}
 	for _, k := range keys {
-		if strings.HasPrefix(k, "L:") || strings.HasPrefix(k, "V:") || wild[k] {
+		if strings.HasPrefix(k, "L:") || strings.HasPrefix(k, "V:") || wild[k] || k == "G:ctxDone" {
 			continue
 		}
 		cur, ok := st.heap[k]
